@@ -49,14 +49,31 @@ theorem srgbEncode_def (c : ℝ) :
 theorem srgb_breakpoints : |(0.04045 / 12.92 : ℝ) - 0.0031308| < 1e-7 := by
   rw [abs_lt]; constructor <;> norm_num
 
-/-- WCAG 2.0 relative luminance: weights `0.2126, 0.7152, 0.0722` (the `Y` row) and the WCAG
-breakpoint `0.03928`. -/
+/-- WCAG relative luminance: weights `0.2126, 0.7152, 0.0722` (the `Y` row) and the sRGB
+linearisation with the breakpoint `0.04045` (WCAG 2.x after the errata; the code used the
+`0.03928` of the original WCAG 2.0 text until the `fix:` commit e8f6984). -/
 theorem luminance_def (c : Color ℝ) :
     luminance c = 0.2126 * lumF (toRgbaFloat c).x + 0.7152 * lumF (toRgbaFloat c).y + 0.0722 * lumF (toRgbaFloat c).z := rfl
 
 theorem lumF_def (s : ℝ) :
-    lumF s = if s ≤ 0.03928 then s / 12.92 else ((s + 0.055) / 1.055) ^ (2.4 : ℝ) := by
+    lumF s = if s ≤ 0.04045 then s / 12.92 else ((s + 0.055) / 1.055) ^ (2.4 : ℝ) := by
   unfold lumF; norm_num
+
+/-- On the 8-bit levels — the colours C04 quantifies over — this *is* the WCAG 2.0 definition
+with its original breakpoint `0.03928`: no level `k/255` lies between the two breakpoints. -/
+theorem lumF_wcag20_on_levels (k : ℕ) :
+    lumF ((k : ℝ) / 255) =
+      if (k : ℝ) / 255 ≤ 0.03928 then ((k : ℝ) / 255) / 12.92 else (((k : ℝ) / 255 + 0.055) / 1.055) ^ (2.4 : ℝ) := by
+  rw [lumF_def]
+  by_cases h : k ≤ 10
+  · have hk : (k : ℝ) ≤ 10 := by exact_mod_cast h
+    have h1 : (k : ℝ) / 255 ≤ 0.04045 := by rw [div_le_iff₀ (by norm_num)]; norm_num; linarith
+    have h2 : (k : ℝ) / 255 ≤ 0.03928 := by rw [div_le_iff₀ (by norm_num)]; norm_num; linarith
+    rw [if_pos h1, if_pos h2]
+  · have hk : (11 : ℝ) ≤ k := by exact_mod_cast (by omega : 11 ≤ k)
+    have h1 : ¬ (k : ℝ) / 255 ≤ 0.04045 := by rw [not_le, lt_div_iff₀ (by norm_num)]; norm_num; linarith
+    have h2 : ¬ (k : ℝ) / 255 ≤ 0.03928 := by rw [not_le, lt_div_iff₀ (by norm_num)]; norm_num; linarith
+    rw [if_neg h1, if_neg h2]
 
 /-- W3C AERT brightness: `(299 R + 587 G + 114 B) / 1000`. -/
 theorem brightness_def (c : Color ℝ) :
